@@ -34,6 +34,20 @@ def _collect_consts(t, acc, seen):
         stack.extend(x.children())
 
 
+def _exp_enclosure(t):
+    """rational enclosure [lo, hi] of exp(c) for a numeric constant c with |c| <= 800 (sound: sympy evaluates to 60
+    significant digits, the enclosure is widened by a relative 1e-40)"""
+    t = z3.simplify(t)
+    if not z3.is_rational_value(t):
+        return None
+    c = sp.Rational(t.numerator_as_long(), t.denominator_as_long())
+    if abs(c) > 800:
+        return None
+    v = sp.Rational(str(sp.exp(c).evalf(60)))
+    lo, hi = v * (1 - sp.Rational(1, 10**40)), v * (1 + sp.Rational(1, 10**40))
+    return z3.RealVal(str(lo)), z3.RealVal(str(hi))
+
+
 class Ack:
     name = 'ack'
 
@@ -86,6 +100,9 @@ class Ack:
             ax.append(e > 0)
             ax.append(z3.And(z3.Implies(t < 0, e < 1), z3.Implies(t == 0, e == 1), z3.Implies(t > 0, e > 1)))
             ax.append(e >= 1 + t)
+            enc = _exp_enclosure(t)
+            if enc is not None:
+                ax.append(z3.And(e >= enc[0], e <= enc[1]))
         for (t1, e1), (t2, e2) in itertools.combinations(E, 2):
             ax.append(z3.And(z3.Implies(t1 < t2, e1 < e2), z3.Implies(t1 == t2, e1 == e2), z3.Implies(t1 > t2, e1 > e2)))
         if homo and len(E) <= TRIPLE_MAX:
